@@ -446,3 +446,19 @@ func init() {
 		c.ok("dbg", "y", "", "")
 	})
 }
+
+func init() {
+	register("DEEPSITE", func(c *Ctx) {
+		parts := strings.Split(os.Getenv("DBG_FN"), ":")
+		for _, fn := range c.P.FuncsNamed(parts[0], parts[1], parts[2]) {
+			for _, ds := range c.P.deepSites(fn, nameMatcher(os.Getenv("DBG_SITE")), 3) {
+				fmt.Println("DEEP", ds.Site.CalleeName(), "@", c.P.Pos(ds.Site.Pos()), "chain", len(ds.Chain))
+				for _, cj := range c.P.mustHoldDeep(ds) {
+					fmt.Println("     ∨", strings.Join(cj.list(), "  ∧  "))
+				}
+			}
+		}
+		c.ok("dbg", "x", "", "")
+		c.ok("dbg", "y", "", "")
+	})
+}
